@@ -1,4 +1,5 @@
 import PdfVerif.Props.C03fio
+import PdfVerif.Props.C02fioj
 /-!
 # C03 — the end of a table-form file, byte for byte (work package FIO)
 
@@ -115,5 +116,62 @@ theorem xref_offsets_distinct {s s' : WState} {cat : Obj} {info : Option Obj} {t
   have a2 := hat n' e' hn' (by omega)
   rw [← heq] at a2
   exact header_at_inj a1 a2
+
+/-! ### the end of a file in cross-reference-stream form -/
+
+/-- **eof_is_last_xrefstream.**  After a successful `Close` in object-stream mode the file ends
+with `\nendstream\nendobj\n` `startxref\n <x> \n%%EOF\n` and nothing behind it; the independent
+`checkTail` accepts that end and returns `x`; `x` is the length of everything written before the
+cross-reference stream object, and the final table's entry for the stream's own number `ref`
+(the last number, `ref + 1 = Size`) is an in-use entry at exactly `x` with generation 0. -/
+theorem eof_is_last_xrefstream {s s' : WState} {cat : Obj} {info : Option Obj} {tr : List (Bytes × Obj)} {raw : Bytes}
+    (hi : Inv s) (hna : C02fioj.NoAfter s) (hobj : s.opts.objStm = true) (h : close s cat info tr raw = .ok s')
+    (hsize : s'.out.length < 10000000000) :
+    ∃ (x ref : Nat) (pre mid : Bytes),
+      Spec.FileWF.checkTail s'.out = .ok x ∧
+      pre.length = x ∧
+      s'.out = pre ++ mid ++ kEndstream ++ kStartxref ++ decOf x ++ kEOF ∧
+      s'.xref.get ref = some ⟨0, (x : Int), 0⟩ ∧ ref + 1 = s'.nextRef := by
+  obtain ⟨s3, ref, cr, ir, mid, _, _, _, i3, _, _, _, _, hx, _, hout, hnr, hlast, _⟩ :=
+    C02fioj.close_xrefstream_form hi hna hobj h
+  have hpos19 : s3.pos < 10 ^ 19 := by
+    rw [i3.pos_eq]; rw [hout] at hsize; simp at hsize; omega
+  refine ⟨s3.pos, ref, s3.out, mid, ?_, i3.pos_eq.symm, hout, ?_, by rw [hnr]; exact hlast⟩
+  · rw [hout]
+    have : s3.out ++ mid ++ kEndstream ++ kStartxref ++ decOf s3.pos ++ kEOF
+        = (s3.out ++ mid ++ kEndstream.dropLast) ++ [10] ++ kStartxref ++ decOf s3.pos ++ kEOF := by
+      simp [kEndstream]
+    rw [this]
+    exact spec_tail_ok _ _ hpos19
+  · have := hx ref
+    simpa using this
+
+/-- the same for every program: whatever operations ran before (`run` from `initState`), if the
+state reached uses cross-reference streams and `Close` succeeds there, the file ends as
+`eof_is_last_xrefstream` says — the hypotheses `Inv`/`NoAfter` hold of every reachable state -/
+theorem eof_is_last_xrefstream_reachable (o : WOpts) (s0 s s' : WState) (ops : List Op)
+    {cat : Obj} {info : Option Obj} {tr : List (Bytes × Obj)} {raw : Bytes}
+    (h0 : initState o = some s0) (hr : run s0 ops 0 = .ok s)
+    (hobj : s.opts.objStm = true) (h : close s cat info tr raw = .ok s')
+    (hsize : s'.out.length < 10000000000) :
+    ∃ (x ref : Nat) (pre mid : Bytes),
+      Spec.FileWF.checkTail s'.out = .ok x ∧ pre.length = x ∧
+      s'.out = pre ++ mid ++ kEndstream ++ kStartxref ++ decOf x ++ kEOF ∧
+      s'.xref.get ref = some ⟨0, (x : Int), 0⟩ ∧ ref + 1 = s'.nextRef :=
+  have i0 := C02fiob.init_inv o s0 h0
+  eof_is_last_xrefstream (C02fiob.run_inv ops i0 hr) (C02fioj.run_na ops i0 (C02fioj.init_na o s0 h0) hr) hobj h hsize
+
+/-- and in table form -/
+theorem eof_is_last_reachable (o : WOpts) (s0 s s' : WState) (ops : List Op)
+    {cat : Obj} {info : Option Obj} {tr : List (Bytes × Obj)} {raw : Bytes}
+    (h0 : initState o = some s0) (hr : run s0 ops 0 = .ok s)
+    (hobj : s.opts.objStm = false) (h : close s cat info tr raw = .ok s')
+    (hsize : s'.out.length < 10000000000) :
+    ∃ (x : Nat) (pre body td : Bytes),
+      Spec.FileWF.checkTail s'.out = .ok x ∧ pre.length = x ∧
+      xrefTableBody s'.xref s'.nextRef = some body ∧
+      s'.out = pre ++ body ++ kTrailerNL ++ td ++ [10] ++ kStartxref ++ decOf x ++ kEOF ∧
+      At s'.out (x + body.length) kTrailerNL :=
+  eof_is_last (C02fiob.run_inv ops (C02fiob.init_inv o s0 h0) hr) hobj h hsize
 
 end PdfVerif.C03fiob
